@@ -255,7 +255,22 @@ pub fn gen_case(ch: &mut Chooser) -> Case {
             2 => {
                 // redefine an imported name in the importer
                 let (name, _) = callable[ch.below(callable.len())].clone();
-                program.push(dp(&name, &[], vec![sym("redefined-by-importer")]));
+                // ... sometimes with the very text of the library's own definition (the importer's procedure then works on
+                // the importer's variables, not on the library's)
+                let same_text = libs.iter().flat_map(|l| l.body.iter()).find(|f| matches!(f, Form::Define(dd) if dd.name == name)).cloned();
+                match same_text {
+                    Some(f) if ch.chance(1, 2) => {
+                        if ch.chance(1, 2) {
+                            program.push(d("count", Expr::Int(1000)));
+                        }
+                        program.push(f);
+                        program.push(Form::Expr(app(&name, if name.contains("use-helper") { vec![Expr::Int(1)] } else { vec![] })));
+                        if !labels.contains(&"redefined-with-the-library's-own-text") {
+                            labels.push("redefined-with-the-library's-own-text");
+                        }
+                    }
+                    _ => program.push(dp(&name, &[], vec![sym("redefined-by-importer")])),
+                }
                 if !labels.contains(&"redefine-imported") {
                     labels.push("redefine-imported");
                 }
